@@ -197,6 +197,10 @@ func c16Record(tier string, seed int64, emit func(interface{})) {
 			lines = append(lines, "")
 		}
 		text := []byte(strings.Join(lines, "\n") + "\n")
+		if i%3 == 2 && len(lines) > 0 && lines[len(lines)-1] == "" { // the listing ends with its last line: no final newline, no blank line
+			lines = lines[:len(lines)-1]
+			text = []byte(strings.Join(lines, "\n"))
+		}
 		m, perr := safeRebaseParse(text)
 		parsed := []rebRec{}
 		exported := []rebRec{}
